@@ -1036,6 +1036,9 @@ def rank_carries_value(ctx, rule, sizes, field="value", want=None):
     v = atom("v", "u16")
     r = ctx.summ(kf, [("v", v)]).ret
     fields = [f["name"] for f in pdb.adt(HRANK)["variants"][0]["fields"]]
+    if want is None and field == "name":
+        kn_ = pdb.inherent(HRANK, "determine_name")
+        want = ctx.summ(kn_, [("r", v)]).ret
     ok = r[0] == "agg" and field in fields and r[2][fields.index(field)] is (v if want is None else want)
     rep.ob(rule + ".conversion-keeps-value", "HandRank::from(v).%s" % field, ok, "HandRank::from(v).%s is not %s" % (field, "v" if want is None else "determine_%s(v)" % field), pdb.where(kf))
 
@@ -2487,6 +2490,12 @@ def check_C09(ctx):
         rep.ob("C09.same-ranking", "Six/Seven", a["callee"] == b["callee"], "Six and Seven rank their candidates with different functions", "")
     # the five-card value is slot-symmetric (so a sub-hand's value does not depend on who selected it)
     fac = ctx.guard("F", premise_factor, ctx)
+    # ... and never 0 for five real cards: "smallest non-zero" over the sub-hands is then the plain minimum, which is
+    # what makes a superset at least as strong as each of its subsets
+    tabs = ctx.guard("T", premise_tables, ctx, "T", "lengths")
+    premise_search(ctx, "S", want_gap=False)
+    if fac and tabs:
+        ctx.guard("C09.five-is-nonzero", premise_residual, ctx, fac, tabs[2], "C09.five-is-nonzero", "nonzero")
     value_wiring(ctx, "E", sizes=((FIVE, 5), (SIX, 6), (SEVEN, 7)))
 
 
@@ -2759,6 +2768,10 @@ def check_C05(ctx):
             nm = ctx.summ(kn, [("r", C(0, "u16"))]).ret
             rep.ob("C05.zero-is-invalid", "name(0)", enum_name(pdb, nm) == "Invalid", "the rank of value 0 is named %s" % enum_name(pdb, nm), pdb.where(kn))
         ctx.guard("C05.blank", blank)
+    # "a blank five is Invalid" is observed on hand_rank() / hand_rank_validated(): they are the conversion of the
+    # corresponding value of the same hand, and the conversion names its argument (name(0) above)
+    ctx.guard("E.rank", rank_carries_value, ctx, "E", ((FIVE, 5),), "name", None)
+    ctx.guard("E.validated-rank", rank_wiring, ctx, "E.validated-rank", ((FIVE, 5),), (("hand_rank_validated", "hand_rank_value_validated"),))
     # Six / Seven: their own panic sites, with the five-card ranking cited compositionally
     for path, n in ((SIX, 6), (SEVEN, 7)):
         def own(path=path, n=n):
